@@ -542,3 +542,32 @@ Example T07f_example :
   let w1 := mkworld 1 1 [1; 2] [(1, FTable 11); (2, FNotTable)] 1000 0 in
   snd (fileset_partition (fs_init w1 0 None None) 0 (parity_cb 0)) = PAbort.
 Proof. vm_compute. split; reflexivity. Qed.
+
+(* ---- the text of the setfile (model/Setfile.v: getline, strlen, ONE trailing newline stripped, the directory of the
+   setfile in front of a relative name - the statements of the read loop of my_fileset_reload, tied through tie_my_fileset_reload).
+   The theorems above take the lines of the setfile as a list of names; T07g says which list a text is: one name per line,
+   and the newline after the LAST name is optional - a setfile written without it names the same files.  (Added after the
+   seeded change C07-15, which lost the last character of an unterminated last line.) *)
+From Mtbl Require Import model.Setfile proofs.SetfileProofs.
+
+Theorem T07g_setfile_text : forall setdir names, ~ In 0%N setdir -> Forall wf_name names ->
+  setfile_names setdir (text_of names) = map (full_name setdir) names.
+Proof. exact setfile_names_text. Qed.
+Print Assumptions T07g_setfile_text.
+
+Theorem T07g_last_newline_optional : forall setdir names last, ~ In 0%N setdir -> Forall wf_name names -> wf_name last ->
+  setfile_names setdir (text_of names ++ last) = map (full_name setdir) (names ++ [last]) /\
+  setfile_names setdir (text_of names ++ last) = setfile_names setdir (text_of (names ++ [last])).
+Proof.
+  intros setdir names last Hd Hn Hl. split; [exact (setfile_names_text_no_final_newline setdir names last Hd Hn Hl)|].
+  rewrite (setfile_names_text_no_final_newline setdir names last Hd Hn Hl).
+  symmetry. apply setfile_names_text; [exact Hd|]. apply Forall_app. split; [exact Hn|constructor; [exact Hl|constructor]].
+Qed.
+Print Assumptions T07g_last_newline_optional.
+
+Example T07g_example :
+  (* /d/set names a.mtbl (relative), /x/b (absolute), ./c (relative with a directory part); no newline after the last *)
+  setfile_names [47; 100] ([97; 10] ++ [47; 120; 47; 98; 10] ++ [46; 47; 99]) = [[47; 100; 47; 97]; [47; 120; 47; 98]; [47; 100; 47; 46; 47; 99]] /\
+  (* an empty line names the directory of the setfile; a NUL cuts the line *)
+  setfile_names [47; 100] [10; 97; 0; 98; 10] = [[47; 100; 47]; [47; 100; 47; 97]].
+Proof. vm_compute. split; reflexivity. Qed.
